@@ -2461,6 +2461,21 @@ void uncrustify_file(const file_mem &fm, FILE *pfout, const char *parsed_file,
             newlines_remove_disallowed();
             first = false;
          }
+
+         if (  old_changes != cpd.changes
+            && options::nl_max() > 0)
+         {
+            // split_line() re-runs newlines_cleanup_braces() when it undoes a one-liner:
+            // keep the line breaks it made within nl_max
+            for (Chunk *nl = Chunk::GetHead(); nl->IsNotNullChunk(); nl = nl->GetNext())
+            {
+               if (  nl->Is(CT_NEWLINE)
+                  && nl->GetPrevNc()->IsNot(CT_IGNORED))
+               {
+                  blank_line_max(nl, options::nl_max);
+               }
+            }
+         }
       }
       dump_step(dump_file, "Inside second while loop");
    } while (old_changes != cpd.changes);
